@@ -141,6 +141,13 @@ Section Decode.
     dec_value (S (length bs)) d bs.
 End Decode.
 
+(* concatenation of encodings, failing when one of them fails *)
+Fixpoint concat_opt (l : list (option bytes)) : option bytes :=
+  match l with
+  | [] => Some []
+  | x :: t => a <-? x ;; b <-? concat_opt t ;; Some (a ++ b)
+  end.
+
 Section Encode.
   Variable wr : dialect -> list writer_row.
 
@@ -162,35 +169,23 @@ Section Encode.
           | WLongstr, VStr _ s => Some (enc_longstr s)
           | WTimestamp, VNum _ n => Some (enc_timestamp n)
           | WArray d', VArr l =>
-            body <-? (fix go (l : list fval) : option bytes :=
-                        match l with
-                        | [] => Some []
-                        | x :: t => a <-? enc_value d' x ;; b <-? go t ;; Some (a ++ b)
-                        end) l ;;
-            Some (enc_longstr body)
+            (* writeArray: every value in order into a buffer, then WriteLongstr *)
+            body <-? concat_opt (map (enc_value d') l) ;; Some (enc_longstr body)
           | WTable d', VTab _ kv =>
-            body <-? (fix go (l : list (bytes * fval)) : option bytes :=
-                        match l with
-                        | [] => Some []
-                        | e :: t => a <-? enc_value d' (snd e) ;; b <-? go t ;;
-                                    Some (enc_shortstr (fst e) ++ a ++ b)
-                        end) kv ;;
+            (* WriteTable: (WriteShortstr key, value) for every entry into a buffer, then WriteLongstr *)
+            body <-? concat_opt (map (fun e => a <-? enc_value d' (snd e) ;; Some (enc_shortstr (fst e) ++ a)) kv) ;;
             Some (enc_longstr body)
           | _, _ => None
           end ;;
         Some (wr_tag row :: payload)
     end.
 
-  Fixpoint enc_arr_body (d : dialect) (l : list fval) : option bytes :=
-    match l with
-    | [] => Some []
-    | x :: t => a <-? enc_value d x ;; b <-? enc_arr_body d t ;; Some (a ++ b)
-    end.
-  Fixpoint enc_titems (d : dialect) (kv : table) : option bytes :=
-    match kv with
-    | [] => Some []
-    | e :: t => a <-? enc_value d (snd e) ;; b <-? enc_titems d t ;; Some (enc_shortstr (fst e) ++ a ++ b)
-    end.
+  Definition enc_arr_body (d : dialect) (l : list fval) : option bytes :=
+    concat_opt (map (enc_value d) l).
+  Definition enc_entry (d : dialect) (e : bytes * fval) : option bytes :=
+    a <-? enc_value d (snd e) ;; Some (enc_shortstr (fst e) ++ a).
+  Definition enc_titems (d : dialect) (kv : table) : option bytes :=
+    concat_opt (map (enc_entry d) kv).
   (* WriteTable(w, &t, proto) in list order (Go: map order, unspecified) *)
   Definition enc_table (d : dialect) (kv : table) : option bytes :=
     body <-? enc_titems d kv ;; Some (enc_longstr body).
